@@ -125,7 +125,7 @@ func (c *Connection) healthCheck(connID uint32) {
 		}
 
 		ctx, cancel := context.WithTimeout(c.healthCheckCtx, opts.Timeout)
-		err := c.ping(ctx)
+		err := c.pingWithErrHandler(ctx, c.healthCheckConnectionError)
 		cancel()
 		c.healthCheckHistory.add(err == nil)
 		if err == nil {
@@ -158,6 +158,15 @@ func (c *Connection) healthCheck(connID uint32) {
 			return
 		}
 	}
+}
+
+// healthCheckConnectionError handles a connection-level error hit by the health
+// check's own ping. connectionError stops health checks and waits for the health
+// check goroutine to exit, which would deadlock when called from that goroutine,
+// so mark health checks as stopped first (stopHealthCheck then does not wait).
+func (c *Connection) healthCheckConnectionError(site string, err error) error {
+	c.healthCheckQuit()
+	return c.connectionError(site, err)
 }
 
 func (c *Connection) stopHealthCheck() {
